@@ -64,6 +64,7 @@ type Run struct {
 	RegionOuts []Value
 	curInstr  ssa.Instruction
 	hang      *Violation
+	Blobs     []jsonBlob
 	Pin       map[string]uint64
 	PinAll    bool
 }
